@@ -1,8 +1,9 @@
 /- Driver for C03/C04 (and the daemon legs of C02/C14): abstracts the qsim traces of the real
    qmail-send + qmail-clean (harness/qsend.c) into `Nq.Daemon.Ev` events, replays them through the
-   monitor `Daemon.accept`, and evaluates the property oracles on the concrete observations. -/
+   monitor `Daemon.accept2` (= `Daemon.accept` plus the list of completion marks that are due, which
+   survives clean restarts), and evaluates the property oracles on the concrete observations. -/
 import Drv.Util
-import Nq.Daemon
+import Nq.DaemonOwed
 
 open Nq Nq.Daemon Drv
 
@@ -42,11 +43,13 @@ structure Obs where   -- what the oracle needs, gathered independently of the mo
   dl0 : Bytes × Nat := ([], 0)                           -- report line buffers of the observer (reversed, length)
   dl1 : Bytes × Nat := ([], 0)
   gen : List (Nat × Nat) := []                           -- message id → generation counter
+  reported : List (Nat × Nat × Nat × Nat) := []          -- (m, chan, mpos, generation): K/D report read by the daemon, completion mark not yet seen
+                                                         -- (emptied by a crash and by a failing system call of qmail-send: "will be delivered twice")
 
 structure Case where
   hdr : String := ""
   cfg : Cfg := { conc := fun _ => 0, lifetime := 0, route := fun a => (.rem, a), doublebounceto := [] }
-  st : Option St := some {}
+  st : Option St2 := some {}
   nev : Nat := 0
   fds0 : List (String × FdKind) := []
   bounceAcc : List (String × Bytes) := []       -- bytes written to a bounce fd, until close
@@ -88,6 +91,8 @@ def observeReports (o : Obs) (cn : Nat) : Bytes → Obs
       match o.active.find? (fun (c2, dn2, _) => c2 == cn && dn2 == delnum) with
       | some (_, _, att) =>
         let o := { o with active := o.active.filter (fun (c2, dn2, _) => !(c2 == cn && dn2 == delnum)) }
+        let key := (o.cmds.find? (fun (a, _) => a == att)).map (fun (_, c3, m3, mpos3, _, g3) => (m3, c3, mpos3, g3))
+        let o := if letter = 75 ∨ letter = 68 then { o with reported := key.toList ++ o.reported } else o
         let o := if letter = 75 then { o with kAttempts := att :: o.kAttempts }
                  else if letter = 68 then { o with dAttempts := att :: o.dAttempts }
                  else { o with zAttempts := att :: o.zAttempts }
@@ -105,13 +110,15 @@ def reject (d : D) (why : String) : IO D := do
   IO.println s!"DISAGREE {d.c.hdr} {why}"
   return { d with st := { d.st with disagree := d.st.disagree + 1 }, c := { d.c with st := none, bad := true } }
 
-def feed (d : D) (ev : Ev) (what : String) : IO D := do
+def feed2 (d : D) (ev : Ev2) (what : String) : IO D := do
   match d.c.st with
   | none => return d
   | some s =>
-    match accept d.c.cfg s ev with
+    match accept2 d.c.cfg s ev with
     | some s' => return { d with c := { d.c with st := some s', nev := d.c.nev + 1 }, st := d.st.bump ("ev_" ++ (what.takeWhile (· != ' ')).toString) }
     | none => reject d s!"event#{d.c.nev + 1} rejected: {what}"
+
+def feed (d : D) (ev : Ev) (what : String) : IO D := feed2 d (.ev ev) what
 
 def oracleFail (d : D) (prop why : String) : IO D := do
   IO.println s!"ORACLE prop={prop} {d.c.hdr} why={why.replace " " "_"}"
@@ -202,13 +209,17 @@ def handle (d : D) (line : String) : IO D := do
     -- C04 oracle: never start a record whose D byte was written (and not lost in a machine crash); bounded concurrency
     if o.marks.contains (m, cn, mpos, g) && !o.machineCrash then
       dd ← oracleFail dd "C04" s!"delivery started for message {m} chan {cn} mpos {mpos} after its completion mark was written"
+    else if o.reported.contains (m, cn, mpos, g) && !o.machineCrash then
+      -- reported K or D in this run or before a clean stop; no crash and no failing call since the report was read
+      dd ← oracleFail dd "C04" s!"delivery started for message {m} chan {cn} mpos {mpos} (recipient {hex recip}) although it was already reported K/D (no crash, no failing call in between; its completion mark was never written)"
     if o.active.any (fun (c2, dn2, _) => c2 == cn && dn2 == delnum) then
       dd ← oracleFail dd "C04" s!"delivery slot {delnum} of chan {cn} reused while in flight"
     let lim := if cn == 0 then d.c.concLoc else d.c.concRem
     if (o.active.filter (fun (c2, _, _) => c2 == cn)).length ≥ lim then
       dd ← oracleFail dd "C04" s!"more than {lim} deliveries in flight on chan {cn}"
     let o := { o with cmds := (att, cn, m, mpos, recip, g) :: o.cmds, active := (cn, delnum, att) :: o.active }
-    feed { dd with c := { dd.c with obs := o } } (.cmd c delnum m mpos recip) s!"cmd chan={cn} delnum={delnum} m={m} mpos={mpos}"
+    -- the command was written to the spawner's descriptor: a system call between two selects (C16 spin oracle)
+    feed { dd with c := { dd.c with obs := o, lastIdleSelect := 0, spin := 0 } } (.cmd c delnum m mpos recip) s!"cmd chan={cn} delnum={delnum} m={m} mpos={mpos}"
   | "X" :: "bounce" :: rest =>
     let ok := kvOf rest "result" == "ok"
     let env := (unhex (kvOf rest "env")).getD []
@@ -224,7 +235,13 @@ def handle (d : D) (line : String) : IO D := do
   | "X" :: "crash-applied" :: rest =>
     let mode := (kvOf rest "mode").toNat!
     let o := d.c.obs
-    feed { d with c := { d.c with pendingCrashMode := some mode, obs := { o with machineCrash := o.machineCrash || mode != 0 } } } .restart "restart"
+    feed { d with c := { d.c with pendingCrashMode := some mode, obs := { o with machineCrash := o.machineCrash || mode != 0, reported := [] } } } .restart "restart"
+  | "X" :: "dump" :: tag :: _ =>
+    -- a new queue dump begins (it may be empty: then no `D` line follows and the oracle must not judge an older dump)
+    return { d with c := { d.c with dumpTag := tag, finalDump := [] } }
+  | "X" :: "clean-restart" :: _ =>
+    -- the daemon exited 0 after TERM and is started again on the same queue: volatile state is gone, every file stays
+    feed2 d .cleanRestart "cleanRestart"
   | "X" :: _ => return d
   | "D" :: tag :: path :: rest =>
     -- queue dump lines; the last dump of the case is what the oracle judges; after a crash they resync the monitor
@@ -233,7 +250,8 @@ def handle (d : D) (line : String) : IO D := do
     let c := { c with finalDump := (path, cur) :: c.finalDump }
     let mut dd := { d with c := c }
     match c.pendingCrashMode, c.st with
-    | some mode, some s =>
+    | some mode, some s2 =>
+      let s := s2.base
       match pathMsg path with
       | some (dir, m) =>
         let ms := s.msg m
@@ -258,6 +276,23 @@ def handle (d : D) (line : String) : IO D := do
     return dd
   | "T" :: "P0" :: rest =>
     let d := if d.c.pendingCrashMode.isSome then { d with c := { d.c with pendingCrashMode := none } } else d
+    -- a failing system call excuses the marks that are still due ("trouble marking …; message will be delivered twice")
+    let d := if rest.getLast? == some "FAULT" && !d.c.obs.reported.isEmpty then { d with c := { d.c with obs := { d.c.obs with reported := [] } } } else d
+    -- … and tells the monitor which file's due marks are excused: markdone's open_write / fstat / write failed
+    let failedMark : Option (Nat × Ch) :=
+      if rest.getLast? != some "FAULT" then none else
+      match rest with
+      | _ :: "open_write" :: path :: _ => (pathMsg path).bind (fun (dir, m) => (chOf dir).map (fun ch => (m, ch)))
+      | _ :: op :: fd :: _ =>
+        if op == "fstat" || op == "write" then
+          (match fdKind d.c.fds0 fd with
+           | some (FdKind.chanMark m ch) => some (m, ch)
+           | _ => none)
+        else none
+      | _ => none
+    let d ← (match failedMark with
+      | some (m, ch) => feed2 d (.markFail m ch) s!"markFail {m}"
+      | none => pure d)
     match rest with
     | _ :: "open_excl" :: path :: "->" :: r :: _ =>
       if r == "-1" then return d else
@@ -296,7 +331,8 @@ def handle (d : D) (line : String) : IO D := do
         if data == [68] then
           let cn := if ch == .loc then 0 else 1
           let o := d.c.obs
-          let d := { d with c := { d.c with obs := { o with marks := (m, cn, off, genOf o m) :: o.marks } } }
+          let key := (m, cn, off, genOf o m)
+          let d := { d with c := { d.c with obs := { o with marks := key :: o.marks, reported := o.reported.filter (· != key) } } }
           feed d (.markD m ch off) s!"markD {m} chan={cn} off={off}"
         else reject d s!"unexpected write to a channel file of {m}: {line.trimAscii.toString.take 100}"
       | some (FdKind.bounce _) =>
@@ -345,7 +381,7 @@ def handle (d : D) (line : String) : IO D := do
       -- a failed or empty read is `cleandied()`: the request is abandoned
       if r == "-1" || r == "0" then
         (match d.c.st with
-         | some s => if s.clean.isSome then feed d (.cleanResp 0) "cleanResp(lost)" else return d
+         | some s => if s.base.clean.isSome then feed d (.cleanResp 0) "cleanResp(lost)" else return d
          | none => return d)
       else
       let data := (unhex (kvOf more "data")).getD []
@@ -364,8 +400,13 @@ def handle (d : D) (line : String) : IO D := do
       let idle := kvOf more "timeout" == "0" && more.contains "0" && (more.getD 2 "") == "0"
       let spinning := idle && d.c.lastIdleSelect != 0 && k == d.c.lastIdleSelect + 1
       let mut d := { d with c := { d.c with lastIdleSelect := if idle then k else 0, spin := if spinning then d.c.spin + 1 else 0 } }
-      if spinning && d.c.spin == 3 then
-        d ← oracleFail d "C16" s!"busy loop: select(timeout=0) returned 0 four times in a row with no other system call (call #{k})"
+      -- a pass steps over one finished (`D`) record of its (already buffered) channel file per iteration: with n marks in one
+      -- file up to n zero-timeout selects in a row are progress; the threshold is the original 3 unless a file has more marks
+      if spinning && d.c.spin ≥ 3 then
+       let marksOf := fun (x : Nat × Nat × Nat × Nat) => (d.c.obs.marks.filter (fun y => y.1 == x.1 && y.2.1 == x.2.1 && y.2.2.2 == x.2.2.2)).length
+       let maxDone := d.c.obs.marks.foldl (fun acc x => max acc (marksOf x)) 0
+       if d.c.spin == max 3 maxDone then
+        d ← oracleFail d "C16" s!"busy loop: select(timeout=0) returned 0 {d.c.spin + 1} times in a row with no other system call (call #{k})"
       match (kvOf more "clock").toNat? with
       | some t => feed d (.tick t) "tick"
       | none => return d
